@@ -128,7 +128,7 @@ CATALOGUE = [
     # ---- C19 ----
     ("C19", "c19-unsorted", CP, "                for sink in sorted(bidir_sinks):", "                for sink in bidir_sinks:", 1, "fire", "C19-R1 ConnectionPlanner._populate_wire_connections"),
     ("C19", "c19-unsorted-router", WR, "    for start_node in sorted(pending_nodes):", "    for start_node in pending_nodes:", 1, "fire", "C19-R1 plan_wire_colors"),
-    ("C19", "c19-id-sort", CP, "merge_list = sorted(source_merge_edges.keys())", "merge_list = sorted(source_merge_edges.keys(), key=lambda k: id(k))", 1, "fire", "C19-R2"),
+    ("C19", "c19-id-sort", CP, '            merge_list = sorted(\n                source_merge_edges.keys(),\n                key=lambda merge_id: [\n                    int(part) if part.isdigit() else part\n                    for part in re.split(r"(\\d+)", merge_id)\n                ],\n            )\n', '            merge_list = sorted(source_merge_edges.keys(), key=lambda k: id(k))\n', 1, "fire", "C19-R2"),
     # ---- C20 ----
     ("C20", "c20-mark-on-decl", SL, "            self.parent.signal_refs[stmt.name] = value_ref\n            self.parent.annotate_signal_ref(stmt.name, value_ref, stmt)\n            return\n\n        # Handle Bundle type declarations", "            self.parent.signal_refs[stmt.name] = value_ref\n            self.parent.referenced_signal_names.add(stmt.name)\n            self.parent.annotate_signal_ref(stmt.name, value_ref, stmt)\n            return\n\n        # Handle Bundle type declarations", 1, "fire", "C20-R1"),
     ("C20", "c20-no-wire", EP, "                self.signal_graph.add_sink(signal_id, anchor_id)\n", "", 1, "fire", "C20-R2"),
@@ -160,7 +160,7 @@ CATALOGUE = [
     ("C04", "c04-reverse-colour-unguarded", CP, "            if (sink_id, source_id, signal_name) not in self._edge_wire_colors:\n                self._edge_wire_colors[(sink_id, source_id, signal_name)] = wire_color\n", "            self._edge_wire_colors[(sink_id, source_id, signal_name)] = wire_color\n", 1, "fire", "C04-R7"),
     ("C13", "c13-label-candidate", SA, "        if entry.debug_label and not candidates:\n", "        if entry.debug_label and entry.debug_label not in candidates:\n", 1, "fire", "C13-R9"),
     ("C14", "c14-dynamic-select-unchecked", AN, "            self.validate_signal_type_with_error(expr.signal_type, expr, \"in bundle selection\")\n", "", 1, "fire", "BundleSelectExpr"),
-    ("C15", "c15-memory-id-shared", ML, "            memory_id = self.ir_builder.next_id(f\"mem_{stmt.name}\")\n", "            pass\n", 1, "fire", "fresh per expansion"),
+    ("C15", "c15-memory-id-shared", ML, '            memory_id = self.ir_builder.next_id(f"mem_{stmt.name}")\n            while self.ir_builder.get_operation(f"mem_create_{memory_id}") is not None:\n                # mem_<name>_<n> can be the id of a memory the program called <name>_<n>\n                memory_id = self.ir_builder.next_id(f"mem_{stmt.name}")\n', '            pass\n', 1, "fire", "fresh per expansion"),
     ("C16", "c16-memory-refs-not-cut", SL, "            self.parent.memory_refs = {\n                k: (saved_memory_refs[k] if k in iteration_locals else v)\n                for k, v in self.parent.memory_refs.items()\n                if k in saved_memory_refs\n            }\n", "", 1, "fire", "memory_refs"),
     ("C01", "c01-placeholder-compares-operand", EE, "            condition_kwargs[\"comparator\"] = \"=\" if holds else \"!=\"\n            condition_kwargs[\"first_signal\"] = \"signal-0\"\n            condition_kwargs[\"constant\"] = 0\n", "            condition_kwargs[\"first_signal\"] = \"signal-0\"\n            condition_kwargs[\"constant\"] = right_operand\n", 1, "fire", "placeholder"),
     ("C02", "c02-filter-no-resolver", EL, "            output_const = ConstantFolder.extract_constant_int(\n                expr.output_value,\n                self.diagnostics,\n                symbol_resolver=self._resolve_constant_symbol,\n            )\n            if output_const is None:", "            output_const = ConstantFolder.extract_constant_int(expr.output_value, self.diagnostics)\n            if output_const is None:", 1, "fire", "C02-R8"),
@@ -175,14 +175,14 @@ CATALOGUE = [
     ("C15", "c15-params-merged", EL, "        self.parent.param_values = dict(param_values)\n", "        self.parent.param_values.update(param_values)\n", 1, "fire", "C15-R2"),
     ("C15", "c15-return-place-unbound", EL, "                        self.parent.returned_entity_id = entity_id\n                        break\n", "                        break\n", 1, "fire", "C15-R15"),
     ("C06", "c06-silent-skip", SL, "            else:\n                self._error(\n                    f\"Cannot set '{prop_name}': '{entity_name}' does not refer to a placed entity\",\n                    stmt,\n                )\n", "", 1, "fire", "C06-R15"),
-    ("C19", "c19-dict-order-from-set", CP, "merge_list = sorted(source_merge_edges.keys())", "merge_list = list(source_merge_edges)", 1, "fire", "C19-R1"),
+    ("C19", "c19-dict-order-from-set", CP, '            merge_list = sorted(\n                source_merge_edges.keys(),\n                key=lambda merge_id: [\n                    int(part) if part.isdigit() else part\n                    for part in re.split(r"(\\d+)", merge_id)\n                ],\n            )\n', '            merge_list = list(source_merge_edges)\n', 1, "fire", "C19-R1"),
     ("C14", "c14-projection-drops-name", AN, "            if source.signal_type is not None:\n                # The inner type is dropped: report an unknown or reserved name first\n                self.get_expr_type(source)\n", "", 1, "fire", "C14-R14"),
     ("C14", "c14-second-write-from-loop", ML, "        if memory_id in self._written_memory_ids:\n", "        if False:\n", 1, "fire", "C14-R15"),
     ("C14", "c14-nested-literal-unwrapped", TR, "        if isinstance(value, SignalLiteral) and value.signal_type is None:", "        if isinstance(value, SignalLiteral):", 1, "fire", "C14-R14"),
     ("C14", "c14-empty-bundle-is-dynamic", AN, "        if isinstance(bundle_type, DynamicBundleValue):\n            # The members", "        if isinstance(bundle_type, DynamicBundleValue) or not bundle_type.signal_types:\n            # The members", 1, "fire", "C14-R16"),
     ("C13", "c13-duplicate-implicit-member", AN, "                    if signal_name in seen_signals:\n", "                    if signal_name in seen_signals and not element_type.signal_type.is_implicit:\n", 1, "fire", "C13-R10"),
     ("C13", "c13-pool-peek", SA, "        signal_name = self._available_signal_pool[self._signal_pool_index]\n", "        signal_name = self._available_signal_pool[(self._signal_pool_index + 1) % len(self._available_signal_pool)]\n", 1, "fire", "C13-R11"),
-    ("C15", "c15-probe-wrong-key", ML, "get_operation(f\"mem_create_{memory_id}\")", "get_operation(f\"mem_create_{stmt.name}\")", 1, "fire", "C15-R17"),
+    ("C15", "c15-probe-wrong-key", ML, '        if self.ir_builder.get_operation(f"mem_create_{memory_id}") is not None:\n            # Declared again', '        if self.ir_builder.get_operation(f"mem_create_{stmt.name}") is not None:\n            # Declared again', 1, "fire", "C15-R17"),
     ("C16", "c16-step-name-ignored", TR, "                if i + 1 < len(items):\n                    step_value", "                if i + 1 < len(items) and isinstance(items[i + 1], int):\n                    step_value", 1, "fire", "number or a name"),
     ("C12", "c12-relay-helper-no-isolation", CP, "            if (\n                node_dist_to_source <= span_limit\n                and node_dist_to_ideal <= 3.0\n                and node.can_route_network(network_id, wire_color)\n            ):", "            if (\n                node_dist_to_source <= span_limit\n                and node_dist_to_ideal <= 3.0\n            ):", 1, "fire", "can_route_network"),
     ("C15", "c15-decl-typed-by-global", SL, "            if symbol is not None and symbol.defined_at is not stmt:\n                # Declared in a function or loop body: the name found is somebody else's\n                symbol = None\n", "", 1, "fire", "C15-R19"),
